@@ -20,10 +20,89 @@ SECTOR = 2048
 CFGS = [ops.mk(1), ops.mk(3, joliet=3), ops.mk(2, rr='1.10', xa=True), ops.mk(3, joliet=3, udf=True), ops.mk(3, joliet=3, rr='1.12', udf=True), ops.mk(4, joliet=2, rr='1.12', udf=True, xa=True)]
 
 
+def _file_op(cfg, iso_name, rr_name, content):
+    kw = {'content': content, 'iso_path': '/D1/' + iso_name}
+    if cfg.get('rr'):
+        kw['rr_name'] = rr_name
+    if cfg.get('joliet'):
+        kw['joliet_path'] = '/d1/' + rr_name
+    if cfg.get('udf'):
+        kw['udf_path'] = '/d1/' + rr_name
+    return ['add_fp', kw]
+
+
+_EXACT = {}
+
+
+def exact_fit_base(cfg):
+    """
+    A directory /D1 whose records fill its first sector *exactly* (a record ends on byte 2048) and continue in a
+    second sector: found by measuring record lengths on probe images with the independent decoder and solving
+    dot + dotdot + n * len(standard record) + len(filler record) = 2048 over the filler's name lengths.
+    Returns (steps, [target paths]) or None.
+    """
+    key = cfg_name(cfg)
+    if key in _EXACT:
+        return _EXACT[key]
+    _EXACT[key] = None
+
+    def dir_records(steps):
+        impl, info = explore.run_history(cfg, steps)
+        if impl is None:
+            return None
+        img = impl.write()
+        # walk the first sector of /D1 by hand: record lengths in order
+        d = dec.decode_iso(img)
+        e = d.vol.trees['iso'].by_path.get('/D1')
+        if e is None:
+            return None
+        off = e.extents[0][0] * SECTOR
+        lens = []
+        pos = off
+        while pos < off + e.extents[0][1]:
+            ln = img[pos]
+            if ln == 0:
+                pos = (pos // SECTOR + 1) * SECTOR
+                continue
+            lens.append((pos - off, ln))
+            pos += ln
+        return lens
+    mk = [ops.add_dir(cfg, 'D1')]
+    std = lambda i: _file_op(cfg, 'F%02d.;1' % i, 'f%02d' % i, 'c1s%d' % (i % 5))
+    maxk = 8 if cfg.get('level', 1) == 1 else 24
+
+    def filler(i, k, m):
+        # distinct names of identical lengths that sort before F00
+        return _file_op(cfg, ('%02d' % i) + 'A' * (k - 2) + '.;1', ('%02d' % i) + 'a' * (m - 2), 'c1')
+    for k in range(2, maxk + 1):
+        for m in ([k] if not cfg.get('rr') else range(2, 14)):
+            lens = dir_records([mk, [std(0), filler(0, k, m)]])
+            if lens is None or len(lens) != 4:
+                continue
+            dot, dotdot, lf, ls = lens[0][1], lens[1][1], lens[2][1], lens[3][1]     # the filler sorts before F00
+            for j in range(1, 21):
+                rest = SECTOR - dot - dotdot - j * lf
+                if rest > 0 and rest % ls == 0:
+                    n = rest // ls
+                    steps = [mk, [filler(i, k, m) for i in range(j)] + [std(i) for i in range(n + 6)]]
+                    lens2 = dir_records(steps)
+                    if lens2 is None:
+                        continue
+                    ends = [o + l for o, l in lens2]
+                    if SECTOR in ends and any(o >= SECTOR for o, l in lens2):
+                        tg = ['/D1/F%02d.;1' % i for i in sorted(set([0, n - 2, n - 1, n, n + 5])) if i >= 0]
+                        _EXACT[key] = (steps, tg)
+                        return _EXACT[key]
+    return None
+
+
 def bases(cfg):
     out = list(ops.reopen_bases(cfg))
     g = ops.grow_dir_step(cfg, 'D1', prefix='H')
     out.append(('bigsub', [[ops.add_dir(cfg, 'D1')], g, [ops.add_fp(cfg, 'AB', 'D1', 'c2049')]]))
+    ef = exact_fit_base(cfg)
+    if ef is not None:
+        out.append(('exactfit', ef[0]))
     return out
 
 
@@ -31,8 +110,8 @@ def new_lengths(old):
     return sorted(set(x for x in (0, 1, old - 1, old, old + 1, 2047, 2048, 2049, 4096) if x >= 0))
 
 
-def targets(model):
-    t = [p for p, n in sorted(model.iso.items()) if n['kind'] == 'file' and n.get('bid') not in (None, 'CAT')]
+def targets(model, only=None):
+    t = [p for p, n in sorted(model.iso.items()) if n['kind'] == 'file' and n.get('bid') not in (None, 'CAT') and (only is None or p in only)]
     d = [p for p, n in sorted(model.iso.items()) if n['kind'] == 'dir' and p != '/'][:1]
     return t, d + ['/NOPE.;1']
 
@@ -165,7 +244,10 @@ def run_task(task):
     res = Result()
     cfg, steps = task['cfg'], task['steps']
     model = explore.model_of(cfg, steps)
-    files, others = targets(model)
+    only = None
+    if task['base'] == 'exactfit':
+        only = exact_fit_base(cfg)[1]      # the records before, on and after the sector boundary
+    files, others = targets(model, only)
     res.add('bases', '%s/%s' % (cfg_name(cfg), task['base']))
     firsts = []
     for p in files:
